@@ -49,7 +49,10 @@ def init_from_template(
     for pattern, tmpl_path in template_pattern_map.items():
         if match := pattern.match(c.strip_zdir(zdir, new_path)):
             matched_template = tmpl_path
-            var_map |= match.groupdict()
+            # A group that took no part in the match captured nothing.
+            var_map |= {
+                k: v for k, v in match.groupdict().items() if v is not None
+            }
             break
 
     if matched_template is None:
